@@ -484,6 +484,9 @@ def run_service(spec: dict[str, Any], rng: random.Random, budget: dict[str, int]
                 ("cancel/warm", e["ident"], e, True, False),
                 ("cancel/cold", e["ident"], e, True, True),
             ]
+            alien = [p for p in pool if p["ident"] != e["ident"]]
+            if alien:
+                extra.append(("other-ident-call/cold", e["ident"], rng.choice(alien), False, True))
             if others:
                 extra.append(("foreign-call/cold", e["ident"], rng.choice(others), False, True))
                 extra.append(("foreign-call/warm", e["ident"], rng.choice(others), False, False))
